@@ -35,6 +35,52 @@
 #include <constr_SET_OF.h>
 #include <asn_SET_OF.h>
 #include <NativeReal.h>
+#include <setjmp.h>
+#include <signal.h>
+#include <unistd.h>
+#include <execinfo.h>
+#include <dlfcn.h>
+
+/* ------------------------------------------------------------------ hang guard
+ * A library call that does not return within C14_HANG_SECS is abandoned by siglongjmp out of the SIGALRM
+ * handler; the line reports `HANG step=<i> at=<innermost frames>` (names via dladdr, needs -rdynamic),
+ * the ledger releases what the abandoned call held, and the driver goes on with the next line. */
+#define C14_HANG_SECS 2
+static sigjmp_buf c14_jb;
+static volatile sig_atomic_t c14_armed;
+static void *c14_bt[24]; static int c14_nbt;
+static int c14_cur_step;
+static void c14_on_alarm(int sig) {
+    (void)sig;
+    if(!c14_armed) return;
+    c14_armed = 0;
+    c14_nbt = backtrace(c14_bt, 24);
+    siglongjmp(c14_jb, 1);
+}
+static void c14_guard_init(void) {
+    static int done;
+    if(done) return;
+    done = 1;
+    void *tmp[4]; backtrace(tmp, 4);              /* loads libgcc now, not inside the handler */
+    struct sigaction sa; memset(&sa, 0, sizeof sa);
+    sa.sa_handler = c14_on_alarm; sigemptyset(&sa.sa_mask); sa.sa_flags = SA_NODEFER;
+    sigaction(SIGALRM, &sa, 0);
+}
+static void c14_report_hang(FILE *out) {
+    lg_enabled = 0; alarm(0);
+    fprintf(out, "HANG step=%d at=", c14_cur_step);
+    int shown = 0;
+    for(int i = 0; i < c14_nbt && shown < 6; i++) {
+        Dl_info di;
+        if(dladdr(c14_bt[i], &di) && di.dli_sname) {
+            if(!strcmp(di.dli_sname, "c14_on_alarm") || !strncmp(di.dli_sname, "__", 2)) continue;
+            fprintf(out, shown ? "<%s" : "%s", di.dli_sname); shown++;
+        }
+    }
+    if(!shown) fputc('?', out);
+    lg_release_leaks(); lg_reset();
+}
+#define LIBCALL(stmt) do { c14_armed = 1; alarm(C14_HANG_SECS); LIBCALL(stmt); alarm(0); c14_armed = 0; } while(0)
 
 /* copies of the private definitions in OCTET_STRING.c (decode-time stack reachable through _asn_ctx.ptr) */
 struct c14_stack_el {
@@ -223,14 +269,14 @@ static int op_hist(int argc, char **argv, FILE *out) {
         } else if(!strcmp(name, "reset")) {
             if(!sptr) fputs("skip 0", out);
             else {
-                lg_enabled = 1; ASN_STRUCT_RESET(*cur_td, sptr); lg_enabled = 0;
+                LIBCALL(ASN_STRUCT_RESET(*cur_td, sptr));
                 int z = is_zero(sptr, c14_struct_size(cur_td));
                 if(!z) zeroed = 0;
                 fprintf(out, "z%d 0", z);
                 state = ST_CLEAN; partial = 0;
             }
         } else if(!strcmp(name, "free")) {
-            lg_enabled = 1; ASN_STRUCT_FREE(*cur_td, sptr); lg_enabled = 0;
+            LIBCALL(ASN_STRUCT_FREE(*cur_td, sptr));
             sptr = 0; state = ST_CLEAN; partial = 0;
             fputs("done 0", out);
         } else if((!strcmp(name, "enc") || !strcmp(name, "encb")) && nf >= 2) {
@@ -253,12 +299,12 @@ static int op_hist(int argc, char **argv, FILE *out) {
             }
         } else if(!strcmp(name, "print")) {
             if(!sptr) fputs("skip 0", out);
-            else { lg_enabled = 1; int r = asn_fprint(devnull, cur_td, sptr); lg_enabled = 0; fprintf(out, "%s 0", r == 0 ? "ok" : "fail"); }
+            else { LIBCALL(int r = asn_fprint(devnull, cur_td, sptr)); fprintf(out, "%s 0", r == 0 ? "ok" : "fail"); }
         } else if(!strcmp(name, "check")) {
             if(!sptr) fputs("skip 0", out);
             else {
                 char eb[128]; size_t el = sizeof eb;
-                lg_enabled = 1; int r = asn_check_constraints(cur_td, sptr, eb, &el); lg_enabled = 0;
+                LIBCALL(int r = asn_check_constraints(cur_td, sptr, eb, &el));
                 fprintf(out, "%s 0", r == 0 ? "ok" : "fail");
             }
         } else fputs("badstep 0", out);
